@@ -142,7 +142,8 @@ def r3_sole(facts, rep):
             for e in _conv_events(r["log"]):
                 n += 1
                 _, power, inverse, conv, sole = e
-                good = sole == T("Eq", T("len", Sym("names")), Const(1)) and power == Sym("mod_power") and inverse == Const(True)
+                good = sole == T("Eq", T("len", Sym("names")), Const(1)) and inverse == Const(True) and power in (
+                    Sym("mod_power"), T("i*", Sym("mod_power"), Sym("side")), T("i*", Sym("side"), Sym("mod_power")))
                 rep.ob("C09-R3", "reconstruct", good,
                        "reconstruct sheds a re-derived unit with apply_conversion(power=%r, inverse=%r, sole=%r)" % (power, inverse, sole))
             # "sole" must count the map as it is once the re-derived unit is in it: the size is taken after the last change
